@@ -78,6 +78,7 @@ func traceFrom(i int) []event {
 type srvSpec struct {
 	addr     string
 	graceful bool
+	stopErr  bool // its Stop reports an error (after having stopped)
 }
 
 type vctx struct {
@@ -101,7 +102,7 @@ func (c *vctx) MakeServers() ([]casket.Server, error) {
 	var out []casket.Server
 	for _, s := range c.srvs {
 		if s.graceful {
-			out = append(out, &gracefulSrv{plainSrv{gen: c.gen, addr: s.addr}})
+			out = append(out, &gracefulSrv{plainSrv: plainSrv{gen: c.gen, addr: s.addr}, stopErr: s.stopErr})
 		} else {
 			p := &plainSrv{gen: c.gen, addr: s.addr}
 			registerPlain(p)
@@ -118,7 +119,7 @@ func setupSrv(c *casket.Controller) error {
 		if len(args) != 2 {
 			return c.ArgErr()
 		}
-		ctx.srvs = append(ctx.srvs, srvSpec{addr: args[0], graceful: args[1] == "graceful"})
+		ctx.srvs = append(ctx.srvs, srvSpec{addr: args[0], graceful: strings.HasPrefix(args[1], "graceful"), stopErr: args[1] == "graceful-stoperr"})
 	}
 	return nil
 }
@@ -222,7 +223,10 @@ func (s *plainSrv) Serve(ln net.Listener) error {
 func (s *plainSrv) ListenPacket() (net.PacketConn, error) { return nil, nil }
 func (s *plainSrv) ServePacket(net.PacketConn) error      { return nil }
 
-type gracefulSrv struct{ plainSrv }
+type gracefulSrv struct {
+	plainSrv
+	stopErr bool
+}
 
 func (s *gracefulSrv) Address() string { return s.addr }
 func (s *gracefulSrv) Stop() error {
@@ -232,6 +236,11 @@ func (s *gracefulSrv) Stop() error {
 	s.mu.Unlock()
 	if ln != nil {
 		ln.Close()
+	}
+	if s.stopErr {
+		// e.g. a graceful shutdown that ran into its deadline: the server is
+		// stopped, but says so with an error
+		return fmt.Errorf("scripted error from Stop of %s (generation %d)", s.addr, s.gen)
 	}
 	return nil
 }
@@ -427,7 +436,11 @@ func (h *histRunner) mkCfg(fail string, live *cfg) cfg {
 	// one graceful server on a stable address (handed over on reload), one on
 	// an address that alternates, and a plain server on a fresh port per gen
 	c.Srvs = append(c.Srvs, fmt.Sprintf("127.0.0.1:%d graceful", h.ports[0]))
-	c.Srvs = append(c.Srvs, fmt.Sprintf("127.0.0.1:%d graceful", h.ports[1+g%2]))
+	kind := "graceful"
+	if g%4 == 1 {
+		kind = "graceful-stoperr" // stopping this one reports an error; the outcome of a reload must not depend on it
+	}
+	c.Srvs = append(c.Srvs, fmt.Sprintf("127.0.0.1:%d %s", h.ports[1+g%2], kind))
 	if g%3 == 0 {
 		c.Srvs = append(c.Srvs, fmt.Sprintf("127.0.0.1:%d plain", h.ports[3+(g/3)%5]))
 	}
